@@ -44,6 +44,9 @@ def run(ch: Checker) -> None:
                      '`upstream is None` / preceded by closing the old value', 3)
     ch.rule('C10.4', 'release on teardown: upstream.close() or pool release is attempted on every path of the owner\'s close callback where the field is set (exceptions of the '
                      'socket-level shutdown included); client socket close is attempted on every path of shutdown(); the plugin close hook is always attempted', 4)
+    ch.rule('C10.6', 'hand-over of the received descriptor: on every normal path of ThreadlessFdExecutor.work the created work is stored in self.works (so that _cleanup -- the only '
+                     'place that closes the received descriptor and forgets the work -- will run for it) or _cleanup(fileno) is attempted on that path', 1)
+    ch.rule('C10.7', 'who may close: a socket owned by a work is closed only from the teardown callbacks (shared with C05.8): earlier closes leave the number registered and its bookkeeping behind', 3)
     ch.rule('C10.5', 'TcpConnection.close closes the socket only under `not self.closed` and sets closed = True on that path', 1)
 
     # ---------------- C10.1
@@ -189,6 +192,46 @@ def run(ch: Checker) -> None:
     ch.check(cex is None and n > 0, 'C10.4', sd, 'client socket close', 'client socket close attempted on all %d path(s), whatever raised before' % n,
              'the client socket is not closed on a path of shutdown() (%s)' % (cex[0] if cex else ''), witness=cex[1] if cex else None)
     shutdown_hook_check(ch, 'C10.4')
+
+    # ---------------- C10.6 hand-over in ThreadlessFdExecutor.work
+    wk = prog.own_method('ThreadlessFdExecutor', 'work')
+    gwk = cfg_of(wk, prog)
+    bad6 = None
+    n6 = 0
+    for p in fpaths(gwk):
+        ch.paths += 1
+        if p.exit_kind != 'return':
+            continue
+        created = [i for i, st in p.stmts() if _has_call(st, ('self.create',))]
+        if not created:
+            continue
+        n6 += 1
+        stored = cleaned = False
+        for i, st in p.stmts():
+            if i < created[0]:
+                continue
+            for chn, kind, node in attr_effects(st):
+                if chn == 'self.works' and kind == 'item':
+                    stored = True
+                if chn == 'self.works' and kind in ('delitem', 'call:pop', 'call:clear'):
+                    stored = False
+            if _has_call(st, ('self._cleanup',)):
+                cleaned = True
+        # attempted-but-raised cleanup also counts (the handler chain is C05's business)
+        for i, nd, lab in p.executed():
+            if lab == 'exc' and nd.ast is not None and _has_call(nd.ast, ('self._cleanup',)):
+                cleaned = True
+        if not stored and not cleaned:
+            bad6 = ('a work is created for a received descriptor and the function returns without the work being in self.works and without _cleanup(fileno): nothing will ever '
+                    'close the descriptor received from the acceptor (os.close happens only in _cleanup) -- one leaked descriptor per such connection', p.describe(24))
+    ch.check(bad6 is None and n6 > 0, 'C10.6', wk, 'hand-over', 'stored in self.works or cleaned up on all %d normal path(s)' % n6, bad6[0] if bad6 else 'no path creates a work', witness=bad6[1] if bad6 else None)
+
+    # ---------------- C10.7 who may close (shared with C05.8)
+    from .common import who_may_close_check
+    who_may_close_check(ch, 'C10.7')
+
+    # ---------------- C10.8 (shared)
+    ch.import_rules('C09', {'C09.6': 'C10.8'}, 'a strict decode of wire bytes that raises on the way to the close callbacks aborts teardown before the upstream socket is released')
 
     # ---------------- C10.5
     close = prog.own_method('TcpConnection', 'close')
